@@ -171,7 +171,16 @@ func (e *Engine) Structural() []*Obligation {
 				case *ssa.Go:
 					cc = &x.Call
 				case *ssa.MakeClosure:
-					callees[f] = append(callees[f], x.Fn.(*ssa.Function))
+					// a closure is a callee only if it is called or deferred here (not when it is spawned)
+					onlyGo := true
+					for _, r := range *x.Referrers() {
+						if _, isGo := r.(*ssa.Go); !isGo {
+							onlyGo = false
+						}
+					}
+					if !onlyGo {
+						callees[f] = append(callees[f], x.Fn.(*ssa.Function))
+					}
 				}
 				if cc != nil && !cc.IsInvoke() {
 					if sc := cc.StaticCallee(); sc != nil && e.inScope(sc) {
@@ -409,7 +418,7 @@ func (u *Unit) checkObjInvs(fr *Frame, st *State, where string) {
 			env := u.newEnv(fr, st, u.entry)
 			env.this = &Scalar{T: IntLit(int64(-k)), Typ: types.NewPointer(typ)}
 			env.callee = true
-			u.oblige("objinv("+oi.Lock+")."+oi.Clause.Label, propList(oi.Clause.Prop), "", st.pc, u.evalBool(env, oi.Clause.Expr), where, oi.Clause.Src)
+			u.oblige("objinv("+oi.Lock+")."+oi.Clause.Label, propList(oi.Clause.Prop), "", And(st.pc, u.allocPC[k]), u.evalBool(env, oi.Clause.Expr), where, oi.Clause.Src)
 		}
 	}
 }
